@@ -181,11 +181,26 @@ pub fn run(tier: Tier, seed: u64) -> i32 {
             }
         }
     }
+    // thorough: the same cases, cut at depth 3, re-explored without merging
+    let slice: Vec<Case> = if tier == Tier::Thorough {
+        cases
+            .iter()
+            .step_by(37)
+            .map(|c| {
+                let mut d = Case::new(&c.name, c.prog.clone(), c.sigs.clone(), c.ov, c.init_menu.clone(), c.menu.clone(), 3);
+                d.continue_after_call_errors = true;
+                d
+            })
+            .collect()
+    } else {
+        vec![]
+    };
     let ncases = cases.len();
     let nshadow = cases.iter().filter(|c| c.name.contains("shadow 1") || c.name.contains("shadow 2") || c.name.contains("shadow 4")).count();
     let res = explore(cases, oracle(), true, &deadline);
     let mut st = res.stats;
     st.witness_n("program_with_variable_named_like_an_output", nshadow as u64);
+    validate_key(&mut st, &res.keys, slice, oracle(), &deadline);
     st.nontrivial = st.states;
     st.space("programs (declaration set x placement x shadowing x header, bind-accepted)", nprog);
     st.sample(|| json!({"cases": ncases, "example_program": "A Q V W\nlet a = 2 ;\nlet Q = 9 ;\ndeclare V = Q * 2 + R ;\ndeclare W = ! R ;\n1 X X X\n2 1 1 0\n3 X ( a ) 1\nC X X X\n", "answers": "Q,R in {0,1,2,Z,X} per output-reading call"}));
